@@ -19,12 +19,10 @@ func fnv64(s string) uint64 {
 }
 
 func safeStr(f func() string) (out string, ok bool) {
-	defer func() {
-		if r := recover(); r != nil {
-			ok = false
-		}
-	}()
-	return f(), true
+	if x := safely(func() { out = f() }); x != nil {
+		return "", false
+	}
+	return out, true
 }
 
 func safePos(f func() token.Pos) string {
